@@ -81,6 +81,10 @@ pub enum Class {
     /// stores at the bottom of its stack, calls a helper, then loads a packet byte with ldabs/ldind:
     /// the helper call must change neither the stack nor what the packet loads address
     ProbeHelperThenPkt,
+    /// fixed-metadata VM: loads a byte a little beyond the end of the metadata buffer that its own
+    /// (data, end) offsets imply: the interpreter must refuse it whatever the VM was configured
+    /// with before. Interpreter only (contains an unreachable call to a never-registered helper).
+    FixedBeyondEnd,
     /// a long straight-line ALU program (more than a page of machine code)
     LongAlu,
     /// main -> f -> g, and g fails (out-of-bounds load): the interpreter returns an error from two
@@ -116,6 +120,7 @@ impl Class {
             Class::StorePkt => "StorePkt",
             Class::SlotPlain => "SlotPlain",
             Class::ProbeHelperThenPkt => "ProbeHelperThenPkt",
+            Class::FixedBeyondEnd => "FixedBeyondEnd",
             Class::LongAlu => "LongAlu",
             Class::FailInCallee => "FailInCallee",
             Class::ProbeCallThenPkt => "ProbeCallThenPkt",
@@ -145,6 +150,7 @@ impl Class {
             Class::StackLeakWrite,
             Class::StackLeakRead,
             Class::ProbeHelperThenPkt,
+            Class::FixedBeyondEnd,
             Class::LongAlu,
             Class::FailInCallee,
             Class::ProbeCallThenPkt,
@@ -318,6 +324,21 @@ pub fn gen_const(rng: &mut Rng, tag: u8) -> Prog {
 pub fn gen_alu(rng: &mut Rng, tag: u8) -> Prog {
     let n = rng.range(2, 14);
     gen_alu_n(rng, tag, n)
+}
+
+pub fn gen_fixed_beyond_end(tag: u8, doff: usize, eoff: usize, beyond: usize) -> Prog {
+    let mut b = B::new(tag);
+    let at = doff.max(eoff) + 8 + beyond;
+    b.i(MOV64_REG, 8, 1, 0, 0);
+    b.i(ADD64_IMM, 8, 0, 0, at as i32);
+    b.i(LDXB, 0, 8, 0, 0);
+    b.i(0x05, 0, 0, 1, 0); // ja +1
+    b.i(CALL, 0, 0, 0, KEY_NEVER as i32); // unreachable; keeps both compilers away
+    b.trailer(tag);
+    let mut p = mk(b.v, tag, Class::FixedBeyondEnd);
+    p.offsets = Some((doff, eoff));
+    p.p0 = at as i64;
+    p
 }
 
 pub fn gen_long_alu(rng: &mut Rng, tag: u8) -> Prog {
